@@ -55,6 +55,11 @@ def gen_pair(rng):
     if type(b) is type(new):
       new = b
     kinds.append(kind)
+  # rewrites inside tuples (a tuple cannot be edited in place: the differ must replace it)
+  for _ in range(rng.randint(0, 2) if rng.random() < 0.35 else 0):
+    k = tuple_rewrite(rng, new)
+    if k:
+      kinds.append(k)
   if r < 0.25:
     # pairs sharing objects by identity: an object of old also occurs in new (in a NEW container, so
     # that no object of old comes to contain itself once old is turned into new)
@@ -67,6 +72,49 @@ def gen_pair(rng):
         setattr(new, rng.choice(free), [s])
         kinds.append("shares-identity")
   return old, new, "+".join(kinds) or "deepcopy"
+
+
+def tuple_rewrite(rng, root):
+  """Replaces one element of a tuple held in a list / dict / Buildable slot: by an equal but distinct
+  object (alias broken), by another equal object of the configuration (alias created / redirected), by
+  an equal leaf of another type (1 -> True), or by a changed leaf."""
+  cands = []
+  for x in c02.reachable(root):
+    if type(x) is tuple and x:
+      slots = c06.slots_holding(root, x)
+      if slots:
+        cands.append((x, slots))
+  if not cands:
+    return None
+  t, slots = rng.choice(cands)
+  i = rng.randrange(len(t))
+  e = t[i]
+  others = [y for y in c02.reachable(root) if y is not e and isinstance(y, (list, dict, config_lib.Buildable))
+            and type(y) is type(e) and c06.safe_eq(y, e) == ("ok", True) and t not in c02.reachable(y)]
+  if isinstance(e, (list, dict, config_lib.Buildable)):
+    if others and rng.random() < 0.5:
+      new_e, kind = rng.choice(others), "tuple-alias-redirect"
+    else:
+      new_e, kind = copy.deepcopy(e), "tuple-alias-break"
+  elif isinstance(e, bool):
+    new_e, kind = int(e), "tuple-leaf-type"
+  elif isinstance(e, int) and e in (0, 1) and rng.random() < 0.7:
+    new_e, kind = bool(e), "tuple-leaf-type"
+  elif isinstance(e, int):
+    new_e, kind = (e + 1000, "tuple-leaf") if rng.random() < 0.7 else (float(e), "tuple-leaf-type")
+  else:
+    # put a shared mutable object of the configuration into the tuple (alias created)
+    pool = [y for y in c02.reachable(root) if isinstance(y, (list, dict)) and t not in c02.reachable(y)]
+    if not pool:
+      return None
+    new_e, kind = rng.choice(pool), "tuple-alias-create"
+  t2 = t[:i] + (new_e,) + t[i + 1:]
+  x, k = rng.choice(slots)
+  try:
+    c06.set_slot(x, k, t2)
+  except (AttributeError, TypeError):
+    return None
+  return kind
 
 
 def g_last(enc, pe):
@@ -181,7 +229,8 @@ def run(tier: str, seed: int) -> Result:
   res = Result()
   res.rule = ("pairs (old, new): new = deep copy of old after 0-4 labelled rewrites (leaf / callable / type change, "
               "argument add / remove, tag edits, alias created / broken / redirected, dict reorder, default made "
-              "explicit), pairs sharing objects by identity, unrelated pairs; non-trivial = non-empty diff")
+              "explicit; elements of tuples replaced by equal-but-distinct objects, other equal objects, equal "
+              "leaves of another type or changed leaves), pairs sharing objects by identity, unrelated pairs; non-trivial = non-empty diff")
   intern = common.Interner()
   stream = Stream("c10_apply",
                   "From Fiddle Require Import PySlice Sig ArgStore PyCall Heap Traverse Tags History Diff C10Check.",
